@@ -58,6 +58,53 @@ func c26LoopDepth(stack []syntax.Node) (depth int, inFunc bool) {
 
 var c26ArithElemRx = regexp.MustCompile(`\(\([^)]*[A-Za-z_]\w*\[[^\]]*\]\s*(\+\+|--|[-+*/%]?=[^=])`)
 
+// c26Direction holds the observed results for families whose predicate
+// includes the direction of the divergence; set by c26Classify.
+type c26Observed struct {
+	iout, bout string
+	ist, bst   int
+}
+
+var c26OpaqueDirected = []struct {
+	name    string
+	trigger func(f *syntax.File, src string, o c26Observed) bool
+}{
+	{
+		// both shells fail with the same output but a different non-zero
+		// status (usage errors of builtins: test, getopts, shift, ...)
+		"error-status-value-differs",
+		func(f *syntax.File, src string, o c26Observed) bool {
+			return o.iout == o.bout && o.ist != 0 && o.bst != 0 && o.ist != o.bst
+		},
+	},
+	{
+		// arithmetic evaluation differences belong to C20 (division by zero in
+		// a short-circuited operand, negative exponent, ...): same stdout,
+		// bash fails, the interpreter does not
+		"arithmetic-error-not-reported-see-C20",
+		func(f *syntax.File, src string, o c26Observed) bool {
+			return (strings.Contains(src, "$((") || strings.Contains(src, "((") || strings.Contains(src, "let ")) && o.bst != 0 && o.ist == 0
+		},
+	},
+	{
+		// printf/echo option and format details belong to C24
+		"printf-echo-details-see-C24",
+		func(f *syntax.File, src string, o c26Observed) bool {
+			found := false
+			c26WalkStmts(f, func(st *syntax.Stmt, _ []syntax.Node) {
+				ce, ok := st.Cmd.(*syntax.CallExpr)
+				if !ok || (c26CallName(st) != "printf" && c26CallName(st) != "echo") || len(ce.Args) < 2 {
+					return
+				}
+				if a := c26Print(ce.Args[1]); strings.HasPrefix(a, "-") || strings.Contains(a, "\\") || strings.Contains(a, "%") {
+					found = true
+				}
+			})
+			return found
+		},
+	},
+}
+
 var c26Opaque = []struct {
 	name    string
 	trigger func(f *syntax.File, src string) bool
@@ -66,6 +113,34 @@ var c26Opaque = []struct {
 		// $PIPESTATUS is not implemented (expands to nothing)
 		"pipestatus-unsupported",
 		func(f *syntax.File, src string) bool { return strings.Contains(src, "PIPESTATUS") },
+	},
+	{
+		// `! { ...; exit N; }`: the interpreter applies the negation to the
+		// status the shell exits with (exit 0 becomes 1)
+		"negation-applied-to-status-of-exit-inside",
+		func(f *syntax.File, src string) bool {
+			found := false
+			c26WalkStmts(f, func(st *syntax.Stmt, stack []syntax.Node) {
+				if n := c26CallName(st); n != "exit" && n != "return" {
+					return
+				}
+				neg := false
+				for _, n := range stack {
+					switch n := n.(type) {
+					case *syntax.Stmt:
+						if n.Negated {
+							neg = true
+						}
+					case *syntax.Subshell, *syntax.CmdSubst, *syntax.FuncDecl:
+						neg = false // the exit/return ends that subshell or function, not the negated command
+					}
+				}
+				if neg {
+					found = true
+				}
+			})
+			return found
+		},
 	},
 	{
 		// break/continue in the condition list of a while/until loop is
@@ -131,9 +206,10 @@ var c26Opaque = []struct {
 		},
 	},
 	{
-		// `continue N` / `break N` with N larger than the number of enclosing
-		// loops: bash acts on the outermost loop; the interpreter's `continue N`
-		// leaves all loops
+		// `continue N` / `break N` inside a loop with N larger than the number
+		// of enclosing loops: bash acts on the outermost loop; the
+		// interpreter's `continue N` leaves all loops, and the unused count
+		// leaks into the next loop
 		"break-continue-count-beyond-loop-depth",
 		func(f *syntax.File, src string) bool {
 			found := false
@@ -146,7 +222,7 @@ var c26Opaque = []struct {
 				if len(ce.Args) > 1 {
 					cnt, _ = strconv.Atoi(ce.Args[1].Lit())
 				}
-				if d, _ := c26LoopDepth(stack); cnt > d {
+				if d, _ := c26LoopDepth(stack); d >= 1 && cnt > d {
 					found = true
 				}
 			})
@@ -282,6 +358,58 @@ var c26Opaque = []struct {
 				}
 				return true
 			})
+			return found
+		},
+	},
+	{
+		// ${a[-N]} with N beyond the array: bash reports a bad subscript, expands
+		// to nothing and goes on; the interpreter drops the whole command
+		"negative-array-index-beyond-start",
+		func(f *syntax.File, src string) bool {
+			found := false
+			syntax.Walk(f, func(n syntax.Node) bool {
+				if pe, ok := n.(*syntax.ParamExp); ok && pe.Index != nil {
+					if u, ok := pe.Index.(*syntax.UnaryArithm); ok && u.Op == syntax.Minus {
+						found = true
+					}
+				}
+				return true
+			})
+			return found
+		},
+	},
+	{
+		// getopts: a missing option argument is reported as ":" (the silent-mode
+		// answer) where bash, not in silent mode, reports "?"
+		"getopts-missing-argument-reported-as-colon",
+		func(f *syntax.File, src string) bool {
+			found := false
+			c26WalkStmts(f, func(st *syntax.Stmt, _ []syntax.Node) {
+				if c26CallName(st) == "getopts" {
+					found = true
+				}
+			})
+			return found
+		},
+	},
+	{
+		// let "a = 5 + 4": an expression containing spaces does not assign
+		"let-expression-with-spaces-does-not-assign",
+		func(f *syntax.File, src string) bool {
+			found := false
+			syntax.Walk(f, func(n syntax.Node) bool {
+				if l, ok := n.(*syntax.LetClause); ok {
+					for _, e := range l.Exprs {
+						if strings.Contains(c26Print(e), " ") {
+							found = true
+						}
+					}
+				}
+				return true
+			})
+			if strings.Contains(src, "let \"") {
+				found = true
+			}
 			return found
 		},
 	},
